@@ -445,3 +445,42 @@ theorem C06_gen_wireless :
        "if wireless_interface != sender_network_interface and wireless_interface.enabled:",
        "wireless_interface.receive_frame(frame)"] ∧
     Gen.FilterPower.wirelessSendGuard = ["if not self.enabled:", "return False"] := by decide
+
+/-! ### emissions made INSIDE a power operation (`default_gateway_hello` on `enable()`, what services / applications send from the hooks)
+
+In the code these are ordinary software emissions: they pass `SessionManager → interface.send_frame`, i.e. they are `localOp` scripts
+(Model/Filter.lean) run at the point of the power method where the hook / `enable()` is called.  Two cases:
+* the node is not ON, or all its interfaces are down, at that point (`_shut_down_actions` always: the interfaces were disabled before, or
+  the node has just become OFF with `Inv`; `_start_up_actions` in `power_on`'s instant branch: it runs BEFORE the interface loop): every
+  attempt is dropped at the interface-send layer — `C06_power_hook_silent`;
+* the node is ON with interfaces up (`default_gateway_hello`, `_start_up_actions` at the end of the boot countdown): the emission is a
+  local operation of an ON node, which the cut theorems already quantify over (`runOps` takes ARBITRARY scripts at attacker-side nodes;
+  a blocking element that has been powered on is no longer a block, a protected node's own emissions are not A's). -/
+
+/-- all ports read disabled at the interface-send layer -/
+def PortsDown (s : Node W) : Prop := ∀ q, portEnabled s q = false
+
+/-- **a script run while every interface is down, and which itself leaves the flags alone (`Pres PortsDown`: every state it writes, given
+that re-entrant states do, has all ports down), puts NOTHING on any wire**: behind the interface-send layer it is a plain state change -/
+theorem C06_power_hook_silent (a : Script W) (h : Pres (PortsDown (W := W)) a) :
+    ∃ s', PortsDown s' ∧ guardSends portEnabled a = .done s' := by
+  induction h with
+  | done hs => exact ⟨_, hs, rfl⟩
+  | @send s q g k hs _ ih =>
+    obtain ⟨s', hs', he⟩ := ih s hs
+    refine ⟨s', hs', ?_⟩
+    simp only [guardSends, hs q]
+    exact he
+
+/-- the premise holds of a not-ON node under `Inv` (so: of the hooks run by `power_off`, by the OFF-reaching tick and by `power_on`'s
+instant branch from any not-ON state) -/
+theorem C06_not_on_portsDown (n : PNode W) (h : Inv n) (hne : n.st ≠ .on) : PortsDown n.view :=
+  fun q => C06_not_on_sends_nothing n h hne q
+
+/-- and of a node whose interfaces `power_off` has just taken down, whatever its state -/
+theorem C06_disabled_portsDown (n : PNode W) : PortsDown (disableAll n).view := by
+  intro q
+  unfold portEnabled
+  cases hi : (disableAll n).view.ifaces[q]? with
+  | none => rfl
+  | some i => exact disableAll_allDown n i (List.mem_of_getElem? hi)
